@@ -484,6 +484,49 @@ def compsJson (info : MInfo) (tasks : Option (List (JTask α))) : Except String 
         .ok { utvs := utvs, stimuli := stim, pnames := tn.map (fun _ => p),
               tnames := some tn, tidx := some ti }
 
+/-- the test deciding whether a *later* multi-arrangement task is kept, by the code the
+    translator derives from the source: 1 the stimulus lists are equal as lists
+    (`stimuli != task_stimuli` skips), 2 equal after `sorted`, 3 equal as `set`s, 4 equal `len`;
+    any other code (the translator could not classify the source's test; the leaf obligation is
+    then broken anyway) behaves as the property demands, i.e. like 1 -/
+def sameStim (mode : Nat) (a b : List Str) : Bool :=
+  if mode = 1 then a == b
+  else if mode = 2 then
+    a.mergeSort (fun x y => strLe x y) == b.mergeSort (fun x y => strLe x y)
+  else if mode = 3 then a.all (fun x => b.contains x) && b.all (fun x => a.contains x)
+  else if mode = 4 then a.length == b.length
+  else a == b     -- underivable / unknown test: what the property demands
+
+/-- the loop of `load_rdms_comps_json` for an arbitrary keep-test `same`; a kept task
+    contributes its `rdm` **as laid out in its own stimulus order**, the labels stay those of
+    the first kept task (so a task listing the same stimuli in another order is loaded with its
+    values under the wrong labels whenever `same` lets it pass) -/
+def jsonLoopBy (same : List Str → List Str → Bool) :
+    List (JTask α) → Nat → List (List α) → List Str → List Str → List Nat →
+    (List (List α) × List Str × List Str × List Nat)
+  | [], _, utvs, stim, tn, ti => (utvs, stim, tn, ti)
+  | task :: rest, t, utvs, stim, tn, ti =>
+    if task.taskType != some sMultiarrange then jsonLoopBy same rest (t + 1) utvs stim tn ti
+    else if utvs.isEmpty then
+      jsonLoopBy same rest (t + 1) (utvs ++ [task.rdm]) task.stimuli (tn ++ [task.name]) (ti ++ [t])
+    else if !(same stim task.stimuli) then jsonLoopBy same rest (t + 1) utvs stim tn ti
+    else jsonLoopBy same rest (t + 1) (utvs ++ [task.rdm]) stim (tn ++ [task.name]) (ti ++ [t])
+
+/-- `load_rdms_comps_json` with the keep-test as a parameter -/
+def compsJsonBy (same : List Str → List Str → Bool) (info : MInfo)
+    (tasks : Option (List (JTask α))) : Except String (Comps α) :=
+  if !info.participantScopeSingle then .error "ValueError"
+  else if info.taskScopeSingle then .error "ValueError"
+  else match tasks with
+    | none => .error "ValueError"
+    | some ts =>
+      match info.participant with
+      | none => .error "KeyError"
+      | some p =>
+        let (utvs, stim, tn, ti) := jsonLoopBy same ts 0 [] [] [] []
+        .ok { utvs := utvs, stimuli := stim, pnames := tn.map (fun _ => p),
+              tnames := some tn, tidx := some ti }
+
 /-- the RDMs object `load_rdms` returns (what the property speaks about) -/
 structure MeadowsRdms (α : Type) where
   experiment : Str
@@ -520,6 +563,13 @@ def assemble [Zero α] (info : MInfo) (c : Comps α) (sort : Bool) : MeadowsRdms
   else
     { experiment := info.experiment, dissim := c.utvs, conds := conds,
       participant := c.pnames, task := c.tnames, taskIndex := c.tidx }
+
+/-- *specification*: the file's dissimilarity, in task `task`, of the stimulus pair with labels
+    `a`, `b` — the entry of the task's own `rdm` vector at the positions `a` and `b` have in the
+    task's **own** stimulus list (symmetric in `a`, `b`) -/
+def fileVal [Zero α] (task : JTask α) (a b : Str) : α :=
+  let st := task.stimuli.map stem
+  vecToMat st.length (0 : α) (0 : α) task.rdm (st.idxOf a) (st.idxOf b)
 
 end meadows
 
